@@ -110,6 +110,7 @@ try:
             rows[i]["outcome"] = outcome
             rows[i]["detail"] = detail
     path.write_text(json.dumps(rows, indent=1))
+    CACHE.parent.mkdir(parents=True, exist_ok=True)
     CACHE.write_text(json.dumps(cache))
     alive = [r for r in rows if r["outcome"] == "alive"]
     print(f"{pid}: caught by tests={sum(1 for r in rows if r['outcome'] == 'tests')} alive={len(alive)}")
